@@ -141,6 +141,11 @@ class ClientProgram:
         self.touches = 0
 
     # -- bindings -------------------------------------------------------------------------
+    def _alt(self):
+        "Alternate between the two ways of rebinding a dotted name (attribute / holder object)."
+        self.rebinds = getattr(self, "rebinds", 0) + 1
+        return self.rebinds % 2 == 1
+
     def rebind(self, name, v):
         val = decode(v)
         if name in GLOBALS:
@@ -148,9 +153,19 @@ class ClientProgram:
         elif name == "K0.A":
             self.mod.K0.A = val
         elif name == "K0.In.B":
-            self.mod.K0.In.B = val
+            if self._alt():
+                self.mod.K0.In = type("In", (), {"B": val})  # rebind the intermediate class
+            else:
+                self.mod.K0.In.B = val
         elif name == "simcfg.m":
-            self.cfg.m = val
+            if self._alt():
+                # rebind the module object itself (the name `simcfg` in the client's globals)
+                self.cfg = types.ModuleType("simcfg")
+                self.cfg.m = val
+                self.mod.simcfg = self.cfg
+                sys.modules["simcfg"] = self.cfg
+            else:
+                self.cfg.m = val
         else:
             for _, _, rb, _ in self.fns:
                 rb(name, val)
